@@ -12,9 +12,12 @@ import (
 	"encoding/json"
 	"fmt"
 	"math/rand"
+	"os"
 	"runtime"
 	"sort"
 	"sync"
+	"sync/atomic"
+	"time"
 
 	"github.com/Tom-Johnston/mamba/disjoint"
 	"github.com/Tom-Johnston/mamba/graph"
@@ -45,6 +48,7 @@ type canonIn struct {
 	Cap     int       `json:"cap"`
 	Known   [][]int   `json:"known"` // full, wb: automorphisms of g known by construction (a[v] = image of v)
 	Order   int       `json:"order"` // wb with Known: the order of the group they generate, predicted by the construction
+	idx     int       // position in the run (watchdog bookkeeping, not part of the input)
 }
 
 type wbEv struct {
@@ -173,6 +177,18 @@ type witness struct {
 }
 
 // canonSum runs the relabelling family and returns the CanonSum event.
+// callStart[i] is the time (unix nanoseconds) at which input i entered the library call it is in now, 0 when it is in none. A call that
+// does not return cannot be stopped from outside; the watchdog in driveCanon reports it and ends the process after flushing the traces.
+var callStart []int64
+
+func inCall(in canonIn, f func()) {
+	if in.idx < len(callStart) {
+		atomic.StoreInt64(&callStart[in.idx], time.Now().UnixNano())
+		defer atomic.StoreInt64(&callStart[in.idx], 0)
+	}
+	f()
+}
+
 func canonSum(in canonIn) tr.E {
 	n := in.G.N
 	codes := map[string]int{}
@@ -188,12 +204,14 @@ func canonSum(in canonIn) tr.E {
 		var code []int
 		r := obs.Safe(func() {
 			h := relabelled(rep, in.G, pi)
-			if len(in.Classes) > 0 {
-				p, _, _ := graph.CanonicalIsomorphFull(h, mapClasses(in.Classes, pi))
-				perm = cp(p)
-			} else {
-				perm = cp(graph.CanonicalIsomorph(h))
-			}
+			inCall(in, func() {
+				if len(in.Classes) > 0 {
+					p, _, _ := graph.CanonicalIsomorphFull(h, mapClasses(in.Classes, pi))
+					perm = cp(p)
+				} else {
+					perm = cp(graph.CanonicalIsomorph(h))
+				}
+			})
 			if len(perm) != n {
 				panic(fmt.Sprintf("permutation of length %d for n=%d", len(perm), n))
 			}
@@ -309,7 +327,7 @@ func canonFull(in canonIn) tr.E {
 	var f fullRes
 	res := obs.Safe(func() {
 		h := relabelled(in.Rep, in.G, pi)
-		f = packFull(graph.CanonicalIsomorphFull(h, cls))
+		inCall(in, func() { f = packFull(graph.CanonicalIsomorphFull(h, cls)) })
 	})
 	if f.Perm == nil {
 		f = fullRes{Perm: []int{}, Orbits: [][]int{}, Gens: [][]int{}}
@@ -942,9 +960,44 @@ func driveCanon(c *Ctx, prop string) {
 	}
 	// the relabelling sweeps run in parallel (one graph per task); events are written in grid order
 	evs := make([]tr.E, len(grid))
+	var evMu sync.Mutex
+	callStart = make([]int64, len(grid))
+	for i := range grid {
+		grid[i].idx = i
+	}
+	const callLimit = 150 * time.Second // a single labelling of a graph on <= 60 vertices takes well under 10 s even on a loaded machine
+	go func() {
+		for {
+			time.Sleep(2 * time.Second)
+			now := time.Now().UnixNano()
+			for i := range callStart {
+				if st := atomic.LoadInt64(&callStart[i]); st != 0 && now-st > int64(callLimit) {
+					// report what is finished and the call that does not return, then leave (the stuck goroutine cannot be stopped)
+					evMu.Lock()
+					in := grid[i]
+					for k, e := range evs {
+						if e == nil || k == i {
+							continue
+						}
+						set.Begin(grid[k].key(), tr.E{"input": grid[k]}).Emit(e)
+					}
+					cls := in.Classes
+					if cls == nil {
+						cls = [][]int{}
+					}
+					set.Begin(in.key(), tr.E{"input": in}).Emit(tr.E{"ev": "CanonSum", "g": in.G, "tried": 0, "codes": [][]int{}, "wit": []witness{},
+						"res": fmt.Sprintf("timeout: the canonical labelling did not return within %v", callLimit), "classes": cls, "nt": false})
+					meta["timed_out"] = true
+					finish()
+					os.Exit(0)
+				}
+			}
+		}
+	}()
 	var wg sync.WaitGroup
 	sem := make(chan struct{}, runtime.NumCPU())
-	for i, in := range grid {
+	for i := range grid {
+		in := grid[i] // carries idx
 		if in.Kind == "reuse" || in.Kind == "wb" {
 			continue
 		}
@@ -953,11 +1006,15 @@ func driveCanon(c *Ctx, prop string) {
 		go func(i int, in canonIn) {
 			defer wg.Done()
 			defer func() { <-sem }()
+			var e tr.E
 			if in.Kind == "sum" {
-				evs[i] = canonSum(in)
+				e = canonSum(in)
 			} else {
-				evs[i] = canonFull(in)
+				e = canonFull(in)
 			}
+			evMu.Lock()
+			evs[i] = e
+			evMu.Unlock()
 		}(i, in)
 	}
 	wg.Wait()
